@@ -136,9 +136,18 @@ package updater
 //@   at call (*DirStructure).EnsureAbsPath assert arg1 == dest || inside(tmp, arg1)
 //@   at call os.Rename assert arg0 == tmp && arg1 == dest
 
+// an entry counts as extracted only if the copy ran to the regular end of the entry's data (no
+// error, or the plain end-of-file that ends every copy of less than the size limit): a stream
+// that ends early must fail the unpacking, not leave a fragment
 //@ func copyFromZipArchive
 //@   nopanic off
 //@   modifies *
+//@   assume io.EOF != io.ErrUnexpectedEOF && !unwrappable(io.ErrUnexpectedEOF)
+//@   ghost var cerr error = nil
+//@   ghost var copied bool = false
+//@   at optional after io.CopyN ghost cerr = ret1
+//@   at optional after io.CopyN ghost copied = true
+//@   ensures r0 == nil && copied ==> cerr == nil || cerr == io.EOF || (unwrappable(cerr) && cerr != io.ErrUnexpectedEOF)
 //@   at call os.OpenFile assert arg0 == dstPath
 //@   at call os.Mkdir assert arg0 == dstPath
 
